@@ -10,7 +10,7 @@ RULE = ('complete matrix: mutating entry point {setitem, append, iterappend (non
         'delete, metadata update / setitem / pop / popitem / del} x {Array, RaggedArray} x how mode r was obtained '
         '{default open, accessmode=r at creation (asarray, create_array, asraggedarray, create_raggedarray), assignment, '
         'r -> r+ -> r, after an explicit r+ context on the r handle, after successful use in r+} x state {first axis 0 (1-D, 2-D), non-empty, ragged with 0 subarrays, ragged with only empty '
-        'subarrays, ragged non-empty} x {with, without metadata}: the call must raise and leave a byte-identical '
+        'subarrays, ragged non-empty} x {without metadata, with two keys, with exactly one key}: the call must raise and leave a byte-identical '
         'directory snapshot; after accessmode = r+ the same call must succeed where valid and show its effect. Every '
         'cell is non-trivial; distinct by cell')
 EXHAUSTIVE = True
@@ -36,7 +36,7 @@ RAGGED_STATES = ['nosub', 'onlyempty', 'nonempty', 'nonempty_atom2']
 
 
 def cases(tier, seed):
-    for md in (False, True):
+    for md in (False, True, 'one'):
         for origin in ORIGINS:
             for st in ARRAY_STATES:
                 for op in ARRAY_OPS:
@@ -50,7 +50,7 @@ def build(env, d, case):
     """Return a handle in mode 'r' obtained the requested way."""
     D = env.darr
     p = d / 'x'
-    md = {'a': 1, 'b': [2]} if case['md'] else None
+    md = ({'a': 1} if case['md'] == 'one' else {'a': 1, 'b': [2]}) if case['md'] else None
     origin, st = case['origin'], case['state']
     cmode = 'r' if origin in ('at_creation', 'create_func') else 'r+'
     if case['kind'] == 'Array':
@@ -230,6 +230,6 @@ def effect(env, res, case, p, opener, n, cell, before):
     elif op in ('md_pop', 'md_del'):
         ok = 'a' not in f.metadata
     elif op == 'md_popitem':
-        ok = len(f.metadata) == 1
+        ok = len(f.metadata) == (0 if case['md'] == 'one' else 1)
     if not ok:
         res.fail(f"rplus-no-effect:{case['kind']}.{op}", f'{cell}: call in r+ succeeded but its effect is not visible', **case)
